@@ -77,6 +77,20 @@ def tokens_inc(src, checks='', maxtok=320):
     return 'static void feed_tokens(void) {\n%s}\nstatic void checks(void) {\n%s}\n' % (body, checks)
 
 
+def mapcap():
+    """largest initial capacity passed to mapinit() anywhere in the tree: sizes the harnesses' typed table rows and the loop bounds of map.c"""
+    import glob, os, core
+    caps = [64]
+    for f in glob.glob(os.path.join(core.REPO, '*.c')):
+        caps += [int(m) for m in re.findall(r'mapinit\([^,()]+(?:\([^)]*\))?[^,()]*,\s*(\d+)\s*\)', open(f).read())]
+    return max(caps)
+
+
+def map_unwindset():
+    c = mapcap()
+    return ['mapinit.0:%d' % (c + 6), '__CPROVER_file_local_map_c_keyindex.0:%d' % (c + 2), 'mapfree.0:%d' % (c + 2), 'mapput.0:%d' % (c + 2), 'mapput.1:%d' % (c + 2)]
+
+
 UNITS = ['decl', 'stmt', 'expr', 'eval', 'init', 'type', 'scope', 'attr', 'map', 'util', 'targ', 'tree', 'utf', 'token', 'qbe']
 OVERRIDES = ['error', 'fatal', 'xmalloc', 'xreallocarray']
 
@@ -93,12 +107,13 @@ def parse_inst(name, src, expect_error, fam, checks='', record=False, errline=No
         defs['WITNESS_IN_ERROR'] = None
     if extra_defs:
         defs.update(extra_defs)
+    if mapcap() != 64:
+        defs['MAPCAP'] = mapcap()
     if maxtok == 'fit':      # token array just large enough (large arrays of structs slow symbolic execution down)
         maxtok = (len(tokenize(src)) + 8 + 31) // 32 * 32
     if maxtok != 320:
         defs['MAXTOK'] = maxtok
     ov = OVERRIDES + (['emitfunc', 'emitdata'] if record else [])
     return Inst(name, 'h_parse.c', defs, units=UNITS, overrides=ov, native_units=['scan', 'pp'], unwind=unwind, family=fam, timeout=timeout, mem_gb=12,
-                unwindset=['mapinit.0:70', 'strlen.0:40', 'strcmp.0:40', 'memcmp.0:40', 'scopeinit.0:16', '__CPROVER_file_local_map_c_hash.0:40',
-                           '__CPROVER_file_local_map_c_keyindex.0:66', 'mapfree.0:66', 'mapput.0:66', 'mapput.1:66'], files={'tokens.inc': tokens_inc(src, checks, maxtok)},
+                unwindset=map_unwindset() + ['strlen.0:40', 'strcmp.0:40', 'memcmp.0:40', 'scopeinit.0:16', '__CPROVER_file_local_map_c_hash.0:40'], files={'tokens.inc': tokens_inc(src, checks, maxtok)},
                 witness=witness, bound={'skeleton': src.strip()[:120], 'expect_error': expect_error})
